@@ -57,3 +57,12 @@ def run(cx):
     from .. import rules_s as S
     _run3(cx)
     S.carry_chain(cx, 'A-CARRY', ('gm_sm2::',), 10)
+
+
+_run_curve = run
+
+
+def run(cx):
+    from .. import rules_a as A
+    _run_curve(cx)
+    A.a_curve(cx, 'A-CURVE', 'sm2', 4)
